@@ -777,3 +777,197 @@ Proof.
   - rewrite Hn. eapply st_nq_state_of_enc, He.
 Qed.
 Print Assumptions link_Enc_ham_viability_terms_after_prepare.
+
+(* ------------------------------------------------------------------ _prepare_hamiltonian: the precedence-term loop
+   The first loop of _prepare_hamiltonian (fragment: the first three statements): for every job, for i in
+   range(0, len(operations) - 1), the precedence term of operations[i] and operations[i + 1], each on the state the previous
+   one left (they increment the constraint counts).  index_pairs_loop: indexing l[i], l[i + 1] over that range walks the
+   consecutive pairs of l.  link_Enc_ham_precedence_terms: in any state reached from the prepared encoding the loop is
+   pair_thread prec_plan over Encoder's own pair list concat (map consecutive (e_jobs e)) (the one prec_plans maps over). *)
+(* l[i], l[i + 1] for i in range(0, len(l) - 1) are the consecutive pairs of l *)
+Definition pair_at {A} (l : list A) (d : nat) : result (A * A) :=
+  match nth_error l d, nth_error l (S d) with
+  | Some a, Some b => Ok (a, b)
+  | _, _ => Err "IndexError"%string
+  end.
+
+Lemma mapM_map {A B C} (g : A -> B) (h : B -> result C) (l : list A) : mapM h (map g l) = mapM (fun x => h (g x)) l.
+Proof. induction l as [|x r IH]; [reflexivity|]. cbn [map mapM]. now rewrite IH. Qed.
+
+Lemma mapM_ext_all {A B} (g h : A -> result B) (l : list A) : (forall x, g x = h x) -> mapM g l = mapM h l.
+Proof. intros E. induction l as [|x r IH]; [reflexivity|]. cbn [mapM]. now rewrite E, IH. Qed.
+
+Lemma consecutive_pair_at {A} : forall l : list A,
+  mapM (pair_at l) (seq 0 (List.length l - 1)) = Ok (consecutive l).
+Proof.
+  induction l as [|x r IH]; [reflexivity|].
+  destruct r as [|y r']; [reflexivity|].
+  replace (List.length (x :: y :: r') - 1)%nat with (S (List.length (y :: r') - 1)) by (cbn [List.length]; lia).
+  rewrite <- cons_seq, <- seq_shift. cbn [mapM]. unfold pair_at at 1. cbn [nth_error bind].
+  rewrite mapM_map.
+  change (fun x0 : nat => pair_at (x :: y :: r') (S x0)) with (pair_at (y :: r')).
+  rewrite IH. reflexivity.
+Qed.
+
+Lemma foldM_via_mapM {St A B} (g : A -> result B) (G : St -> B -> result St) : forall (xs : list A) (ys : list B) (s0 : St),
+  mapM g xs = Ok ys ->
+  py_foldM (fun s x => do y <- g x; G s y) xs s0 = py_foldM G ys s0.
+Proof.
+  induction xs as [|x r IH]; intros ys s0 H; cbn [mapM] in H.
+  - injection H as <-. reflexivity.
+  - destruct (g x) as [y|] eqn:Eg; cbn [bind] in H; [|discriminate].
+    destruct (mapM g r) as [ys'|] eqn:Em; cbn [bind] in H; [|discriminate]. injection H as <-.
+    cbn [py_foldM]. rewrite Eg. cbn [bind]. destruct (G s0 y) as [s1|err]; [|reflexivity]. now apply IH.
+Qed.
+
+Lemma index_pairs_loop {St A} (l : list A) (G : St -> A -> A -> result St) (s0 : St) :
+  py_foldM (fun s i => do a <- py_index l i; do b <- py_index l (i + 1); G s a b) (py_range 0 (py_len l - 1)) s0
+  = py_foldM (fun s ab => G s (fst ab) (snd ab)) (consecutive l) s0.
+Proof.
+  unfold py_range, py_len. rewrite Z.sub_0_r.
+  replace (Z.to_nat (Z.of_nat (List.length l) - 1)) with (List.length l - 1)%nat by lia.
+  rewrite <- (foldM_via_mapM (fun i => do a <- py_index l i; do b <- py_index l (i + 1); Ok (a, b))
+                (fun s ab => G s (fst ab) (snd ab)) (map (fun k => 0 + Z.of_nat k) (seq 0 (List.length l - 1))) (consecutive l) s0).
+  - clear. generalize (map (fun k : nat => 0 + Z.of_nat k) (seq 0 (Datatypes.length l - 1))). intros xs. revert s0.
+    induction xs as [|x r IH]; intros s0; [reflexivity|]. cbn [py_foldM].
+    destruct (py_index l x) as [a|err]; cbn [bind]; [|reflexivity].
+    destruct (py_index l (x + 1)) as [b|err]; cbn [bind fst snd]; [|reflexivity].
+    destruct (G s0 a b); [apply IH|reflexivity].
+  - rewrite mapM_map. rewrite <- (consecutive_pair_at l). apply mapM_ext_all. intros d.
+    rewrite Z.add_0_l. replace (Z.of_nat d + 1) with (Z.of_nat (S d)) by lia. rewrite !py_index_nat. unfold pair_at.
+    destruct (nth_error l d); cbn [bind]; [|reflexivity]. destruct (nth_error l (S d)); reflexivity.
+Qed.
+
+Lemma py_foldM_ext {St A} (F F' : St -> A -> result St) : (forall s x, F s x = F' s x) ->
+  forall xs s0, py_foldM F xs s0 = py_foldM F' xs s0.
+Proof. intros E. induction xs as [|x r IH]; intros s0; [reflexivity|]. cbn [py_foldM]. rewrite E. destruct (F' s0 x); [apply IH|reflexivity]. Qed.
+
+Lemma index_pairs_loop2 {S1 S2 A} (l : list A) (G : S1 -> S2 -> A -> A -> result (S1 * S2)) (s1 : S1) (s2 : S2) :
+  py_foldM (fun '(s1, s2) i => do a <- py_index l i; do b <- py_index l (i + 1); G s1 s2 a b) (py_range 0 (py_len l - 1)) (s1, s2)
+  = py_foldM (fun '(s1, s2) ab => G s1 s2 (fst ab) (snd ab)) (consecutive l) (s1, s2).
+Proof.
+  rewrite (py_foldM_ext _ (fun s i => do a <- py_index l i; do b <- py_index l (i + 1); G (fst s) (snd s) a b)) by (intros [a b] x; reflexivity).
+  rewrite (index_pairs_loop l (fun s a b => G (fst s) (snd s) a b)).
+  apply py_foldM_ext. intros [a b] x. reflexivity.
+Qed.
+
+Lemma consecutive_map {A B} (g : A -> B) : forall l, consecutive (map g l) = map (fun ab => (g (fst ab), g (snd ab))) (consecutive l).
+Proof.
+  induction l as [|x r IH]; [reflexivity|]. destruct r as [|y r']; [reflexivity|].
+  cbn [map consecutive fst snd] in *. now rewrite IH.
+Qed.
+
+Lemma consecutive_In {A} : forall (l : list A) a b, In (a, b) (consecutive l) -> In a l /\ In b l.
+Proof.
+  induction l as [|x r IH]; intros a b H; [contradiction|]. destruct r as [|y r']; [contradiction|].
+  cbn [consecutive] in H. destruct H as [[= <- <-]|H]; [split; [now left|right; now left]|].
+  destruct (IH a b H) as [Ha Hb]. split; now right.
+Qed.
+
+(* the model side: the pair terms of a list of variable pairs, one after the other, each on the state the previous one left *)
+Fixpoint pair_thread (plan_of : dwvar -> dwvar -> result pterm) (pairs : list (dwvar * dwvar)) (acc : list opexpr) (st : encstate)
+  : result (list opexpr * encstate) :=
+  match pairs with
+  | [] => Ok (acc, st)
+  | ab :: r => do ts <- pair_result (v_op (fst ab)) (v_op (snd ab)) st (plan_of (fst ab) (snd ab));
+               pair_thread plan_of r (acc ++ [fst ts])%list (snd ts)
+  end.
+
+Lemma prec_pairs_thread e : NoDup (map v_op (e_vars e)) -> forall pairs acc st,
+  (forall a b, In (a, b) pairs -> In a (e_vars e) /\ In b (e_vars e)) -> reached_from_prepared e st ->
+  py_foldM (fun '(pts, st) ab => do r3_ <- gen_Enc_precedence_term (fst ab) (snd ab) st; Ok ((pts ++ [fst r3_])%list, snd r3_))
+           (map (fun ab => (v_op (fst ab), v_op (snd ab))) pairs) (acc, st)
+  = pair_thread prec_plan pairs acc st.
+Proof.
+  intros Hnd. induction pairs as [|[v1 v2] r IH]; intros acc st Hin Hr; [reflexivity|].
+  cbn [map py_foldM pair_thread fst snd].
+  destruct (Hin v1 v2 (or_introl eq_refl)) as [H1 H2].
+  rewrite (link_Enc_precedence_term_after_prepare e st v1 v2 Hnd Hr H1 H2).
+  destruct (prec_plan v1 v2) as [p|err] eqn:Ep; [|reflexivity].
+  destruct (pair_result (v_op v1) (v_op v2) st (Ok p)) as [[t st']|err] eqn:Et; cbn [bind fst snd]; [|reflexivity].
+  apply IH; [intros a b Hab; apply Hin; now right|].
+  eapply reached_pair_result; [exact Hr|exact Et].
+Qed.
+
+Lemma pair_thread_app plan_of : forall p1 p2 acc st,
+  pair_thread plan_of (p1 ++ p2) acc st = do r <- pair_thread plan_of p1 acc st; pair_thread plan_of p2 (fst r) (snd r).
+Proof.
+  induction p1 as [|ab r IH]; intros p2 acc st; [reflexivity|]. cbn [app pair_thread].
+  destruct (pair_result _ _ st _) as [ts|err]; cbn [bind]; [apply IH|reflexivity].
+Qed.
+
+Lemma pair_thread_reached e plan_of : forall pairs acc st acc' st',
+  reached_from_prepared e st -> pair_thread plan_of pairs acc st = Ok (acc', st') -> reached_from_prepared e st'.
+Proof.
+  induction pairs as [|ab r IH]; intros acc st acc' st' Hr H; cbn [pair_thread] in H; [now injection H as _ <-|].
+  destruct (plan_of (fst ab) (snd ab)) as [p|err] eqn:Ep; [|discriminate].
+  destruct (pair_result (v_op (fst ab)) (v_op (snd ab)) st (Ok p)) as [[t st1]|err] eqn:Et; cbn [bind fst snd] in H; [|discriminate].
+  eapply IH; [|exact H]. eapply reached_pair_result; [exact Hr|exact Et].
+Qed.
+
+Lemma prec_job_loop e : NoDup (map v_op (e_vars e)) -> forall vs acc st,
+  (forall v, In v vs -> In v (e_vars e)) -> reached_from_prepared e st ->
+  py_foldM (fun '(precedence_terms, st) i =>
+      do it1_ <- py_index (map v_op vs) i;
+      do it2_ <- py_index (map v_op vs) (i + 1);
+      do r3_ <- gen_Enc_precedence_term it1_ it2_ st;
+      let st := snd r3_ in
+      let precedence_terms := (precedence_terms ++ [fst r3_])%list in
+      Ok (precedence_terms, st)) (py_range 0 (py_len (map v_op vs) - 1)) (acc, st)
+  = pair_thread prec_plan (consecutive vs) acc st.
+Proof.
+  intros Hnd vs acc st Hin Hr.
+  etransitivity.
+  { exact (index_pairs_loop2 (map v_op vs)
+             (fun pts st a b => do r3_ <- gen_Enc_precedence_term a b st; Ok ((pts ++ [fst r3_])%list, snd r3_)) acc st). }
+  rewrite consecutive_map.
+  apply (prec_pairs_thread e Hnd (consecutive vs) acc st); [|exact Hr].
+  intros a b Hab. destruct (consecutive_In vs a b Hab). split; now apply Hin.
+Qed.
+
+Lemma prec_jobs_loop e : NoDup (map v_op (e_vars e)) -> forall jobs vss acc st,
+  map (map v_op) vss = map job_ops jobs ->
+  (forall v, In v (concat vss) -> In v (e_vars e)) -> reached_from_prepared e st ->
+  py_foldM (fun '(precedence_terms, st) job_ =>
+      do l4_ <-
+        py_foldM (fun '(precedence_terms, st) i =>
+          do it1_ <- py_index (job_ops job_) i;
+          do it2_ <- py_index (job_ops job_) (i + 1);
+          do r3_ <- gen_Enc_precedence_term it1_ it2_ st;
+          let st := snd r3_ in
+          let precedence_terms := (precedence_terms ++ [fst r3_])%list in
+          Ok (precedence_terms, st)) (py_range 0 (py_len (job_ops job_) - 1)) (precedence_terms, st);
+      let '(precedence_terms, st) := l4_ in
+      Ok (precedence_terms, st)) jobs (acc, st)
+  = pair_thread prec_plan (concat (map consecutive vss)) acc st.
+Proof.
+  intros Hnd. induction jobs as [|j r IH]; intros vss acc st Hm Hin Hr.
+  - destruct vss; [reflexivity|discriminate].
+  - destruct vss as [|vs vss']; [discriminate|]. cbn [map] in Hm. injection Hm as Hj Hrest.
+    cbn [py_foldM map concat]. rewrite <- Hj, pair_thread_app.
+    assert (Hin1 : forall v, In v vs -> In v (e_vars e)) by (intros v Hv; apply Hin; cbn [concat]; apply in_or_app; now left).
+    match goal with |- context [py_foldM ?F (py_range 0 (py_len (map v_op vs) - 1)) (acc, st)] =>
+      replace (py_foldM F (py_range 0 (py_len (map v_op vs) - 1)) (acc, st)) with (pair_thread prec_plan (consecutive vs) acc st)
+        by (symmetry; exact (prec_job_loop e Hnd vs acc st Hin1 Hr))
+    end.
+    destruct (pair_thread prec_plan (consecutive vs) acc st) as [[acc1 st1]|err] eqn:Et; cbn [bind fst snd]; [|reflexivity].
+    apply IH; [exact Hrest| |].
+    + intros v Hv. apply Hin. cbn [concat]. apply in_or_app. now right.
+    + eapply pair_thread_reached; [exact Hr|exact Et].
+Qed.
+
+Lemma link_Enc_ham_precedence_terms : forall I L e st, prepare_encoding I L = Ok e ->
+  NoDup (map v_op (e_vars e)) -> reached_from_prepared e st ->
+  gen_Enc_ham_precedence_terms I L st = pair_thread prec_plan (concat (map consecutive (e_jobs e))) [] st.
+Proof.
+  intros I L e st He Hnd Hr. unfold gen_Enc_ham_precedence_terms. cbv zeta.
+  assert (Hm : map (map v_op) (e_jobs e) = map job_ops (inst_jobs I)).
+  { unfold prepare_encoding in He. destruct (prep_jobs L 0 0 (inst_jobs I)) as [js|] eqn:Ej; cbn [bind] in He; [|discriminate].
+    injection He as <-. cbn [e_jobs]. eapply prep_jobs_ops, Ej. }
+  match goal with |- bind ?X _ = _ =>
+    replace X with (pair_thread prec_plan (concat (map consecutive (e_jobs e))) [] st)
+      by (symmetry; exact (prec_jobs_loop e Hnd (inst_jobs I) (e_jobs e) [] st Hm (fun v Hv => Hv) Hr))
+  end.
+  destruct (pair_thread prec_plan _ [] st) as [[a s]|err]; reflexivity.
+Qed.
+Print Assumptions link_Enc_ham_precedence_terms.
